@@ -146,6 +146,25 @@ add("disallow_single_d3", (3,), [("t", I)], lambda d, t: {"disallow": ty(d, t)},
 add("type_schema_d3", (3,), [("t", I), ("n", I), ("a", I)],
     lambda d, t, n, a: {"type": [ty(d, t), {"type": "string", "maxLength": n}, {"type": "number", "minimum": a}]}, ANY, pre=lambda d, t, n, a: tyok(d, t) and n >= 0)
 
+# the empty schema {} in every subschema position (it is falsy in Python: a truthiness test instead of a type test changes its meaning)
+def _es(e, a):
+    return {} if e else {"maximum": a}
+
+
+add("empty_additionalProperties", ALL, [("e", B), ("a", I)], lambda d, e, a: {"additionalProperties": _es(e, a), "properties": {"b": {}}}, OBJ)
+add("empty_items", ALL, [("e", B), ("a", I)], lambda d, e, a: {"items": _es(e, a)}, ARR)
+add("empty_items_tuple_addl", ALL, [("e", B), ("a", I)], lambda d, e, a: {"items": [_es(e, a)], "additionalItems": _es(not e, a)}, ARR)
+add("empty_properties", ALL, [("e", B), ("a", I)], lambda d, e, a: {"properties": {"a": _es(e, a), "b": _es(not e, a)}}, OBJ)
+add("empty_patternProperties", ALL, [("e", B), ("a", I)], lambda d, e, a: {"patternProperties": {"^a": _es(e, a)}, "additionalProperties": False}, OBJ)
+add("empty_dependencies", ALL, [("e", B), ("a", I)], lambda d, e, a: {"dependencies": {"a": _es(e, a), "b": {"properties": {"a": _es(not e, a)}}}}, OBJ)
+add("empty_not", D4P, [("e", B), ("a", I)], lambda d, e, a: {"not": _es(e, a)}, NUM)
+add("empty_anyOf_oneOf", D4P, [("e", B), ("a", I)], lambda d, e, a: {"anyOf": [_es(e, a), {"minimum": a}], "oneOf": [{"maximum": a}, _es(e, a)]}, NUM)
+add("empty_allOf", D4P, [("e", B), ("a", I)], lambda d, e, a: {"allOf": [_es(e, a), {}]}, NUM)
+add("empty_contains_names", D6P, [("e", B), ("a", I)], lambda d, e, a: {"contains": _es(e, a), "propertyNames": _es(e, a)}, ["arr_int", "obj_int"])
+add("empty_if", (7,), [("e", B), ("f", B), ("a", I)], lambda d, e, f, a: {"if": _es(e, a), "then": _es(f, a + 1), "else": _es(not f, a - 1)}, NUM)
+add("empty_extends_disallow_d3", (3,), [("e", B), ("a", I)], lambda d, e, a: {"extends": _es(e, a), "disallow": [_es(not e, a)], "type": [_es(e, a - 1), "string"]}, NUM)
+add("empty_enum_required", D4P, [("e", B)], lambda d, e: {"required": [] if e else ["a"], "dependencies": {"a": [] if e else ["b"]}}, OBJ)
+
 # ---- T2: sibling-interaction groups -----------------------------------------------------------
 add("g_min_excl_bool", (3, 4), [("a", I), ("e", B)], lambda d, a, e: {"minimum": a, "exclusiveMinimum": e}, NUM, group="T2")
 add("g_max_excl_bool", (3, 4), [("a", I), ("e", B)], lambda d, a, e: {"maximum": a, "exclusiveMaximum": e}, NUM, group="T2")
